@@ -1348,6 +1348,11 @@ class Kconfig(object):
         # So we cache symbols with user-set value and set them additionally.
         choices_with_user_set_value: Dict[Choice, List[Tuple[Symbol, str]]] = dict()
 
+        # Promptless symbols with a default value in sdkconfig. Their Kconfig value can depend on entries
+        # that come later in the file (or on deferred choice selections), so they are compared with
+        # the sdkconfig value only after everything has been loaded.
+        promptless_with_default_values: List[Symbol] = []
+
         with self._open_config(filename) as f:
             if replace:
                 self.missing_syms = []
@@ -1594,9 +1599,7 @@ class Kconfig(object):
                     if is_main_sdkconfig:
                         sym._sdkconfig_value = val
                         sym._loaded_as_default = True
-                    if is_main_sdkconfig and sym.str_value != sym._sdkconfig_value:
-                        if sym.name not in self.promptless_no_warn:
-                            self.report.add_record(DefaultValuesArea, sym_or_choice=sym, promptless=True)
+                        promptless_with_default_values.append(sym)
 
                 value_is_default = False
 
@@ -1679,6 +1682,11 @@ class Kconfig(object):
             for choice in self.unique_choices:
                 if not choice._was_set:
                     choice.unset_value()
+
+        # All values are loaded now: report promptless symbols whose Kconfig value differs from sdkconfig
+        for sym in promptless_with_default_values:
+            if sym.str_value != sym._sdkconfig_value and sym.name not in self.promptless_no_warn:
+                self.report.add_record(DefaultValuesArea, sym_or_choice=sym, promptless=True)
 
         if self.print_report or self.report.status == REPORT_STATUS_ERROR:
             self.report.print_report()
